@@ -1,6 +1,7 @@
 package props
 
 import (
+	"bytes"
 	"crypto"
 	"crypto/ecdh"
 	"crypto/ecdsa"
@@ -129,6 +130,17 @@ func c17Keys() []c17Key {
 	// values of the right Go type that are not keys: wrong-length Ed25519 keys, nil pointers, structures
 	// without modulus / curve / coordinates. Not members of any family: refused (not accepted, no panic)
 	ks = append(ks,
+		// 32-octet Ed25519 public keys whose encoding is unusual: y not reduced (2^255-19 .. 2^255-1, with and without the
+		// sign bit), the neutral element, a point of small order, all zero / all ones. Ed25519 keys all the same
+		// (crypto/ed25519 takes them): accepted for EdDSA
+		c17Key{Name: "ed25519-public-all-ff", Pub: ed25519.PublicKey(bytes.Repeat([]byte{0xff}, 32)), Family: "ed"},
+		c17Key{Name: "ed25519-public-y-equals-p", Pub: ed25519.PublicKey(append(append([]byte{0xed}, bytes.Repeat([]byte{0xff}, 30)...), 0x7f)), Family: "ed"},
+		c17Key{Name: "ed25519-public-y-equals-p-plus-1", Pub: ed25519.PublicKey(append(append([]byte{0xee}, bytes.Repeat([]byte{0xff}, 30)...), 0x7f)), Family: "ed"},
+		c17Key{Name: "ed25519-public-y-equals-p-sign-bit", Pub: ed25519.PublicKey(append(append([]byte{0xed}, bytes.Repeat([]byte{0xff}, 30)...), 0xff)), Family: "ed"},
+		c17Key{Name: "ed25519-public-y-2^255-1", Pub: ed25519.PublicKey(append(bytes.Repeat([]byte{0xff}, 31), 0x7f)), Family: "ed"},
+		c17Key{Name: "ed25519-public-neutral", Pub: ed25519.PublicKey(append([]byte{1}, make([]byte, 31)...)), Family: "ed"},
+		c17Key{Name: "ed25519-public-all-zero", Pub: ed25519.PublicKey(make([]byte, 32)), Family: "ed"},
+		c17Key{Name: "ed25519-public-order-2", Pub: ed25519.PublicKey(append(append([]byte{0xec}, bytes.Repeat([]byte{0xff}, 30)...), 0x7f)), Family: "ed"},
 		c17Key{Name: "malformed-ed25519-public-3-bytes", Pub: ed25519.PublicKey{1, 2, 3}, Family: "none"},
 		c17Key{Name: "malformed-ed25519-public-empty", Pub: ed25519.PublicKey{}, Family: "none"},
 		c17Key{Name: "malformed-ed25519-public-33-bytes", Pub: ed25519.PublicKey(make([]byte, 33)), Family: "none"},
@@ -335,6 +347,35 @@ type c17DigestCase struct {
 	// Reentrant: while the signer waits for entropy (after it has hashed the message, before the key
 	// operation) the same signer object signs another message: the stand-in for a second goroutine
 	Reentrant bool `json:"reentrant,omitempty"`
+	// MsgSigner (with Opaque): the opaque key also offers the message-level entry point of Go 1.25's
+	// crypto.MessageSigner (SignMessage hashes the message itself: with the hash named by the options, or with the
+	// key's own default hash when none is named) next to Sign - a service-backed key. Whichever entry point the
+	// library uses, the signature is one under the COSE algorithm's hash
+	MsgSigner bool `json:"message_signer,omitempty"`
+}
+
+// messageSigningKey is an opaque key with both entry points.
+type messageSigningKey struct{ inner crypto.Signer }
+
+func (o messageSigningKey) Public() crypto.PublicKey { return o.inner.Public() }
+func (o messageSigningKey) Sign(r io.Reader, d []byte, opts crypto.SignerOpts) ([]byte, error) {
+	return o.inner.Sign(r, d, opts)
+}
+func (o messageSigningKey) SignMessage(r io.Reader, msg []byte, opts crypto.SignerOpts) ([]byte, error) {
+	h := crypto.SHA256 // the key's own default
+	if pk, ok := o.inner.Public().(*ecdsa.PublicKey); ok && pk.Curve.Params().BitSize > 256 {
+		h = crypto.SHA512
+	}
+	if opts != nil && opts.HashFunc() != 0 {
+		h = opts.HashFunc()
+	}
+	if _, ok := o.inner.Public().(ed25519.PublicKey); ok {
+		return o.inner.Sign(r, msg, crypto.Hash(0))
+	}
+	if opts == nil {
+		opts = h
+	}
+	return o.inner.Sign(r, refcose.Digest(h, msg), opts)
 }
 
 // hookReader runs hook once, on its first Read.
@@ -365,6 +406,10 @@ func checkC17Digest(c c17DigestCase) error {
 	if c.Opaque {
 		sg, err = cose.NewSigner(cose.Algorithm(c.Key.Alg), opaqueSigner{c.Key.Private()})
 		stats.Class("digest-equivalence/opaque-crypto-signer")
+		if c.MsgSigner {
+			sg, err = cose.NewSigner(cose.Algorithm(c.Key.Alg), messageSigningKey{c.Key.Private()})
+			stats.Class("digest-equivalence/opaque-message-signer")
+		}
 	}
 	if err != nil {
 		return finding("newsigner", "%v", err)
@@ -451,6 +496,7 @@ func TestC17_Digest(t *testing.T) {
 		if c.Msg == nil {
 			c.Msg = rc.Hex{}
 		}
+		c.MsgSigner = c.Opaque && rapid.Bool().Draw(rt, "message-signer")
 		stats.Eval()
 		if len(c.Msg) < 16 {
 			stats.Sample("digest/"+refcose.AlgName(alg), c)
